@@ -14,8 +14,12 @@ STATES = ["active", "idle"]
 AGG = ["total", "max", "min", "mean"]
 
 
+DT = [1.0]          # the scenario's dt (module-level so that the agents' act() sees it); recorded times are 0, dt, 2*dt
+
+
 def plan_state(i, t, variant):
     """state of agent i at time t"""
+    t = round(t / DT[0])
     if variant == 0:
         return "active" if (i + int(t)) % 2 == 0 else "idle"
     if variant == 1:
@@ -40,7 +44,7 @@ def make_bptk(n, variant, values):
         def act(self, time, round_no, step_no):
             self.state = plan_state(self.id, time + 1, variant)   # state for the next recorded time... recorded after act
             self.state = plan_state(self.id, time, variant)
-            if variant == 3 and self.id == 0 and time == 1.0:
+            if variant == 3 and self.id == 0 and round(time / DT[0]) == 1:
                 # the first agent removes the last one of its population while the step is running
                 self.model.delete_agent(max(a.id for a in self.model.agents))
 
@@ -54,8 +58,8 @@ def make_bptk(n, variant, values):
     m.instantiate_model()
     b = BPTK_Py.bptk()
     b.register_scenario_manager({"abm": {"type": "abm", "model": m, "scenarios": {
-        "s": {"runspecs": {"starttime": 0, "stoptime": 2, "dt": 1}, "properties": {}, "agents": [{"name": "A", "count": n}]},
-        "s2": {"runspecs": {"starttime": 0, "stoptime": 2, "dt": 1}, "properties": {}, "agents": [{"name": "A", "count": n + 1}]}}}})
+        "s": {"runspecs": {"starttime": 0, "stoptime": STOP(), "dt": DT[0]}, "properties": {}, "agents": [{"name": "A", "count": n}]},
+        "s2": {"runspecs": {"starttime": 0, "stoptime": STOP(), "dt": DT[0]}, "properties": {}, "agents": [{"name": "A", "count": n + 1}]}}}})
     return b
 
 
@@ -65,8 +69,18 @@ def scenarios_of(n):
 
 
 def expected_members(n, variant, t, state):
-    live = range(n - 1) if (variant == 3 and t >= 1.0 and n > 1) else range(n)      # variant 3: the last agent is gone from t=1 on
+    live = range(n - 1) if (variant == 3 and round(t / DT[0]) >= 1 and n > 1) else range(n)      # variant 3: the last agent is gone from the second recorded time on
     return [i for i in live if plan_state(i, t, variant) == state]
+
+
+def STOP():
+    """agent-based runs have integer start and stop times (rounds); dt = 1: rounds 0..2, a fractional dt: rounds 0..1 (stop = 0 is outside: the progress computation divides by it)"""
+    return 2 if DT[0] == 1.0 else 1
+
+
+def times():
+    """the first three recorded times"""
+    return [0.0, float(DT[0]), 2.0 * DT[0]]
 
 
 def run(n, variant, fmt, values):
@@ -108,8 +122,9 @@ def count_cell(cnt, fmt, state, t, sc="s"):
     raise KeyError(t)
 
 
-def check(n, variant, fmt, timeout_s, spec_cell):
+def check(n, variant, fmt, timeout_s, spec_cell, dt=1.0):
     """-> None or (what, model)"""
+    DT[0] = 1 if dt == 1.0 else dt
     def go():
         try:
             return ("ok",) + run(n, variant, fmt, S.v)
@@ -127,7 +142,7 @@ def check(n, variant, fmt, timeout_s, spec_cell):
             return "run_scenarios(agents=..., return_format=%r) raised %r" % (fmt, p.out[1]), {}
         res, cnt, states = p.out[1], p.out[2], p.out[3]
         for sc, ns in scenarios_of(n):
-          for t in (0.0, 1.0, 2.0):
+          for t in times():
             for st in states:
                 members = expected_members(ns, variant, t, st)
                 try:
@@ -156,6 +171,7 @@ def check(n, variant, fmt, timeout_s, spec_cell):
 
 def replay(case):
     n, variant, fmt = case["n"], case["variant"], case["fmt"]
+    DT[0] = 1 if float(case.get("dt", 1.0)) == 1.0 else float(case.get("dt", 1.0))
     env = case.get("env", {})
 
     def values(name):
@@ -168,7 +184,7 @@ def replay(case):
     except Exception as e:
         return True, "run_scenarios for agents raised %r" % (e,)
     for sc, ns in scenarios_of(n):
-      for t in (0.0, 1.0, 2.0):
+      for t in times():
         for st in states:
             members = expected_members(ns, variant, t, st)
             vals = [values("%s_p%d" % (sc, i)) for i in members]
